@@ -451,7 +451,15 @@ class Daemon(object):
                         except Exception as xv:
                             self.methodcall_error_handler(self, current_context.client_sock_addr, method, vargs, kwargs, xv)
                             xv._pyroTraceback = errors.format_traceback(detailed=config.DETAILED_TRACEBACK)
-                            data.append(core._ExceptionWrapper(xv))
+                            wrapped = core._ExceptionWrapper(xv)
+                            try:
+                                serializer.dumps(wrapped)
+                            except Exception as sx:
+                                # the exception object can't be serialized, use a generic PyroError instead (like for normal calls)
+                                replacement = errors.PyroError("Error serializing exception: %s. Original exception: %s: %s" % (str(sx), type(xv), str(xv)))
+                                replacement._pyroTraceback = xv._pyroTraceback
+                                wrapped = core._ExceptionWrapper(replacement)
+                            data.append(wrapped)
                             break  # stop processing the rest of the batch
                         else:
                             data.append(result)    # note that we don't support streaming results in batch mode
